@@ -25,6 +25,7 @@ func (wp wrapProp) run(t *testing.T, kinds []string) {
 		kind := kind
 		t.Run(kind, func(t *testing.T) {
 			rapid.Check(t, func(t *rapid.T) {
+				decorrelate(t, kind)
 				c := genWrapCase(t, kind, wp.maxBuf, wp.faults, wp.eqShrink, wp.nilCalls)
 				beginCase(wp.prop, "wrap-"+kind, func() any { return c })
 				defer endCase() // also when rapid abandons the case half-way (fuzzing: input used up)
